@@ -99,7 +99,8 @@ impl<'a> Gen<'a> {
         let fs: Vec<F> = if uninit { data.iter().filter(|f| !f.uninit).cloned().collect() } else { data.clone() };
         let (lit, vals) = self.fields_init(&fs);
         let sname = if uninit { "UnpackedUninitRecord" } else { "UnpackedRecord" };
-        let ctor = if uninit { "new_uninit" } else { "new" };
+        // the constructors, or the `From<Unpacked…>` impls that wrap them
+        let ctor = if self.rng.chance(1, 3) { "from" } else if uninit { "new_uninit" } else { "new" };
         let code = format!("let mut r{n}: {ty} = {m}::CappedRecord{v}::{ctor}({m}::{sname}{v} {{ {lit} }}); flush(out, \"ok\".into());", n = n, ty = self.rty(v), m = self.m, v = v, ctor = ctor, sname = sname, lit = lit);
         self.op(&format!("{} {} {} {}", if uninit { "newu" } else { "new" }, v, n, vals), &code);
         Reg { n, v, place: Place::Stack, init: data.iter().map(|f| !uninit || !f.uninit).collect() }
